@@ -11,5 +11,5 @@ def main(tier='quick', seed=0):
         'by induction over the derivation the local equations proved at the five construction sites (leaf, goal, unary, binary x2) give in_score = model score and head_id = head of the derivation for every item',
         'retrieve_tree appends item.score() = in_score + 0 for the goal item and pairs tree i with score i (covered by the bounded run on the DePyx text); floating-point addition order is not modelled',
     ]
-    extra = dict(functions_under_contract=['depccg/parsing.h::parse_sentence (inside-score and head equations at every construction site, matrix index bounds)'], cxx=info)
+    extra = dict(functions_under_contract=['depccg/parsing.h::parse_sentence (inside-score and head equations at every construction site, matrix index bounds)'] + cxx.HELPER_FUNCTIONS['C09'], cxx=info)
     return c12.finish_with(PROP, tier, seed, t0, records, errors, extra, assumptions, ['search_real.py', 'pyx_real.py'])
